@@ -83,6 +83,8 @@ def requests(cfg, rng, n, tier, part, nparts, st):
                     d = (r ** rng.choice((p, p, max(1, p - 1), 1))) + rng.choice((-1, 0, 0, 0, 1))
                 elif c < 0.5:
                     d = 0
+                elif c < 0.65:
+                    d = cfg.B - 1 - rng.choice((0, 0, 0, 1))   # next to a chunk-base digit: the short division's quotient digit becomes B-1
                 else:
                     d = rng.getrandbits(cfg.dbits)
                 v |= (d % cfg.B) << (cfg.dbits * i)
